@@ -108,7 +108,45 @@ def special_c16(pid, tier, seed, st, res, chk):
             status = "timeout"
             res["oracle_fail"].append({"op": "conc %d GOMAXPROCS=%d" % (n, procs), "impl": "", "tag": "conc-deadlock", "reason": "timeout"})
         runs.append({"goroutines": n, "GOMAXPROCS": procs, "race_detector": use_race, "ops": len(part), "status": status})
-    res.setdefault("extra", {})["schedules"] = {"runs": runs, "race_binary": have_race, "t_s": round(time.time() - t0, 1)}
+    # cold-start bursts: many goroutines, each needing a DIFFERENT generator-polynomial degree of the shared encoders as
+    # the very first library calls of a fresh process (QR versions/levels with distinct check-codeword counts, DataMatrix
+    # sizes) — the window in which an unsynchronised cache extension shows; repeated over several fresh processes
+    burst = []
+    for i in range(8):
+        for lvl in range(4):
+            burst.append("qr 41 %d 3" % lvl)          # version 1: 7 / 10 / 13 / 17 check codewords
+        for n in [1, 4, 7, 11]:
+            burst.append("dm %s" % ("42" * n))        # sizes 10 / 12 / 14 / 16: 5 / 7 / 10 / 12 check codewords
+    seq = dict(zip(burst, chk.run_impl(burst)))
+    reps = 40 if tier == "quick" else 300
+    bad_bursts = 0
+    for rep in range(reps):
+        env = dict(os.environ, GOMAXPROCS="16")
+        try:
+            p = subprocess.run([harness, "conc", str(len(burst))], input="\n".join(burst) + "\n", stdout=subprocess.PIPE,
+                               stderr=subprocess.PIPE, text=True, env=env, timeout=300)
+        except subprocess.TimeoutExpired:
+            res["oracle_fail"].append({"op": "cold-start burst", "impl": "", "tag": "conc-deadlock", "reason": "timeout"})
+            bad_bursts += 1
+            continue
+        lines = [l for l in p.stdout.split("\n") if l and not l.startswith("#conc")]
+        tail = [l for l in p.stdout.split("\n") if l.startswith("#conc")]
+        diff = [(o, a) for o, a in zip(burst, lines) if a != seq.get(o)]
+        leaked = int(tail[0].split("leaked=")[1].split(" ")[0]) if tail and "leaked=" in tail[0] else -1
+        if diff or leaked != 0 or p.returncode != 0:
+            bad_bursts += 1
+            if diff:
+                o, a = diff[0]
+                res["oracle_fail"].append({"op": o, "impl": chk.short(a), "tag": "conc-result",
+                    "reason": "cold-start burst %d: result of a first call made concurrently with %d others differs from the sequential result (%d of %d calls differ)" % (rep, len(burst) - 1, len(diff), len(burst))})
+            elif leaked != 0:
+                res["oracle_fail"].append({"op": "cold-start burst", "impl": tail[0] if tail else "", "tag": "conc-leak", "reason": "goroutines left: %d" % leaked})
+            else:
+                res["oracle_fail"].append({"op": "cold-start burst", "impl": chk.short(p.stderr, 800), "tag": "conc-crash", "reason": "exit %d" % p.returncode})
+            if bad_bursts >= 2:
+                break
+    res.setdefault("extra", {})["schedules"] = {"runs": runs, "race_binary": have_race, "cold_start_bursts": reps,
+                                               "bursts_failing": bad_bursts, "t_s": round(time.time() - t0, 1)}
 
 PROPS = {
     "C15": {"claim": "Purity: every encoder is modelled as a pure function; that this is faithful is carried by generated syntactic facts (no package-level variable written after init, no struct field aliasing a slice parameter, the RS cache only touched inside the locked getPolynomial) plus the theorem that Encode is independent of the cache history and that the map-order dependent searches have unique answers; the Go side is exercised with long mixed histories in one process against fresh-process runs and with post-hoc mutation of []byte arguments.",
@@ -117,28 +155,28 @@ PROPS = {
             "obs": None, "special": special_c16, "note": "Partial by nature: the Go scheduler and memory model are not modelled; races and leaks are searched by execution (-race), not proved absent."},
     "C09": {"claim": "Model of scaledbarcode.go (Scale, ScaleWithFill, both scalers, the wrapper's accessors) with the theorem that the result is the integer, centred enlargement or an error; tied by correspondence on exhaustive (width, height) windows of small sources of every family, chains, fills; judged pixel by pixel by the property's own formula.",
             "obs": None, "aux": scale_inner, "exhaustive_note": "every (w, h) in [1, 3*size+3]^2 for the small 1-D sources and small matrix symbols whose window fits the budget"},
-    "C10": {"modules": ["QrA", "PdfA", "DmA", "C05", "C06", "C07", "C08"], "claim": "Acceptance stated per entry point as `accepted iff representable` (alphabet, length, parity, check digit, capacity from the ISO tables); models tied by correspondence on every single byte / boundary rune / boundary length / parameter sweep; no call may panic, hang or return an inconsistent pair. For Aztec and PDF417 capacity the oracle decides only one direction (content that certainly fits must be accepted).",
+    "C10": {"modules": ["QrA", "PdfA", "DmA", "AztecA", "C05", "C06", "C07", "C08"], "claim": "Acceptance stated per entry point as `accepted iff representable` (alphabet, length, parity, check digit, capacity from the ISO tables); models tied by correspondence on every single byte / boundary rune / boundary length / parameter sweep; no call may panic, hang or return an inconsistent pair. For Aztec and PDF417 capacity the oracle decides only one direction (content that certainly fits must be accepted).",
             "obs": ["ok", "rej"], "exhaustive_note": "every single byte value and 15 boundary runes as one-character content for every entry point; level bytes 0..255; layer requests -40..40"},
-    "C11": {"claim": "Rendering contract per family: bounds, exactly the two scheme colours, scheme and model reported, pattern independent of the scheme, metadata, content rule; models tied by correspondence over schemes in Gray, Gray16, RGBA, NRGBA, CMYK, RGBA64 with equal and mixed-type colours.",
+    "C11": {"claim": "Proved in Lean for all eleven families and every constructor path (BV/Props/C11): acceptance, bounds, metadata, content, checksum and module pattern do not depend on the colour scheme; the scheme in force is the caller's (plain Encode = ColorScheme16); only the two scheme colours occur; standard sizes. Tied to /repo by correspondence over schemes in Gray, Gray16, RGBA, NRGBA, CMYK, RGBA64 incl. equal and type-mixed colours, and judged per pixel by the oracle.",
             "obs": None, "aux": plain_op},
-    "C12": {"modules": ["QrA", "PdfA", "DmA"], "claim": "Declared and carried error-correction strength: QR level in the format information and ISO block structure, PDF417 level in both indicators and 2^(level+1) valid check words, DataMatrix ECC 200 counts, Aztec check bits vs. requested percentage; read back from the implementation's pixels by the reference decoders.",
+    "C12": {"modules": ["QrA", "PdfA", "DmA", "AztecA"], "claim": "Declared and carried error-correction strength: QR level in the format information and ISO block structure, PDF417 level in both indicators and 2^(level+1) valid check words, DataMatrix ECC 200 counts, Aztec check bits vs. requested percentage; read back from the implementation's pixels by the reference decoders.",
             "obs": None},
-    "C13": {"modules": ["QrA", "PdfA", "DmA"], "claim": "Minimality: QR version against the ISO capacity of the densest single mode, DataMatrix size against the ASCII encodation length, PDF417 padding below one row within the limits, Aztec by requesting every physically smaller symbol explicitly.",
+    "C13": {"modules": ["QrA", "PdfA", "DmA", "AztecA"], "claim": "Minimality: QR version against the ISO capacity of the densest single mode, DataMatrix size against the ASCII encodation length, PDF417 padding below one row within the limits, Aztec by requesting every physically smaller symbol explicitly.",
             "obs": ["w", "h", "auto", "smaller_ok"]},
     "C14": {"modules": ["C05", "C06", "C07"], "claim": "CheckSum() against the check value decoded from the drawn symbol (EAN last digit = GS1 check, Code 128 check character, Code 39 modulo-43 value) and its invariance under 0-3 rounds of Scale.",
             "obs": ["cs"], "aux": base_op},
-    "C01": {"modules": ["QrA", "QrB"], "claim": "Model of the qr package (four mode encoders incl. Atoi semantics, version search, padding, block split/interleave + RS, all eight masked renderings with the four penalty rules and the argmin, format/version information, alignment geometry in exact arithmetic) tied by correspondence on every version x level x mode capacity boundary; judged by a reference decoder written from ISO/IEC 18004 (BCH by generator polynomial, Annex E centres, function-module map, zig-zag read, ISO block table, RS validity by evaluation, segment parse, terminator and pad rules).",
+    "C01": {"modules": ["QrA", "QrB"], "claim": "Proved in Lean for all inputs (theorem C01_qr): whenever the model of the qr package returns a barcode, the ISO/IEC 18004 reference decoder accepts its picture (function patterns, both format/version copies BCH-valid, every RS block valid, terminator/pads/remainder) and returns exactly the content, the requested level and the chosen version, for whichever of the eight masks is selected. The model is tied to /repo on every run: tables regenerated by the translator (block table, format/version words, character set, field), control flow by a differential correspondence check over every version x level x mode capacity boundary; the same reference decoder also judges the implementation's own pictures.",
             "obs": None, "exhaustive_note": "quick: capacity-1/capacity/capacity+1 for every (level, mode) of versions 1-10 and a rotating pair for 11-40; thorough: all 160 x 3 x 3 boundary cases"},
-    "C02": {"modules": ["DmA", "C17"], "claim": "Model of the datamatrix package (encodation, padding, size choice, block interleave + RS, placement with both wrap rules, corner cases and panics, region merge) tied by correspondence on every size and capacity boundary; judged by a reference decoder written from ISO/IEC 16022 (attribute table, finder/clock tracks, Annex F placement pseudo-code, RS validity by evaluation, ASCII decodation with 253-state pads).",
+    "C02": {"modules": ["DmA", "C17"], "claim": 'Proved in Lean for all inputs (theorem C02_datamatrix): every content whose ASCII encodation has at most 1558 codewords is accepted (iff), placed in the smallest of the 24 sizes, and the ISO/IEC 16022 reference decoder (finder/clock tracks per region, Annex F placement, interleaved RS blocks, 253-state pads) returns the content; placement via a data-independence lemma plus 24 kernel certificates; RS from C17. Tied to /repo by regenerated size table and correspondence on every size and capacity boundary.',
             "obs": None, "exhaustive_note": "all 24 sizes at capacity-1/capacity/capacity+1 in several content classes"},
-    "C03": {"claim": "Model of the aztec package (high-level encoder with its state search, token lists, bit stuffing, layer choice, mode message, check words over five fields, data spiral, bullseye, reference grid) tied by correspondence over all 36 shapes, all 37 layer requests, percentages and capacity boundaries; judged by a reference decoder written from ISO/IEC 24778 (bullseye/orientation, mode message RS over GF(16), reference grid, domino spiral read, RS validity by evaluation, un-stuffing, character stream incl. binary shift). The empty payload is an open known finding.",
+    "C03": {"modules": ["AztecA"], "claim": 'Proved in Lean for all inputs (theorem AztecA.C03_aztec, payloads shorter than 2^58 bytes, percentage >= 0): whatever the model of the aztec package returns, the ISO/IEC 24778 reference decoder accepts the picture (bullseye, orientation marks, RS-valid mode message agreeing with the size, complete reference grid, RS-valid data words with no all-0/all-1 word) and returns exactly the payload; explicit layer requests are honoured exactly; check bits >= requested percentage; every physically smaller explicit request is refused (C13). Built from a search invariant for the high-level encoder (any state of the list parses back), stuffing, layer choice, RS via C17, and 36 per-shape geometry certificates. Tied to /repo by regenerated tables and correspondence over all 36 shapes, 37 layer requests, percentages and capacity boundaries.',
             "obs": None, "exhaustive_note": "all 36 symbol shapes and all 37 layer requests; capacity-1/capacity/capacity+1 for every (percentage, layers) group"},
-    "C04": {"modules": ["PdfA"], "claim": "Model of the pdf417 package (text/byte/numeric compaction state machines, dimensions, RS LFSR, row indicators, rendering) tied by correspondence incl. every total codeword count 3..905; judged by a reference decoder written from ISO/IEC 15438 (start/stop, cluster rule, indicators, RS validity over GF(929) by evaluation, compaction modes). The 3x929 pattern order is a frozen snapshot (DESIGN 1.1).",
+    "C04": {"modules": ["PdfA"], "claim": 'Proved in Lean for all inputs (theorem PdfA.C04_encode_decode): whatever the model of the pdf417 package returns, the ISO/IEC 15438 reference decoder returns exactly rows, columns, level, length descriptor, padding (< one row), 2^(level+1) check words and the data; the LFSR is polynomial division over ZMod 929 (Mathlib), generator polynomials certified for the nine levels, indicators = ISO formulas, compaction round trips incl. segmentation. The 3x929 pattern order is a frozen snapshot (DESIGN 1.1). Tied to /repo by regenerated tables and correspondence incl. every total codeword count.',
             "obs": None, "exhaustive_note": "every total codeword count 3..905, i.e. all 104 reachable (rows, cols) shapes"},
-    "C05": {"claim": 'Model of code128/encode.go (Lean; tables regenerated from /repo each run) tied to the code by correspondence (exhaustive for lengths 1-2 over the 132-symbol alphabet, structured random beyond) and judged by a reference decoder written from ISO/IEC 15417 in element-width form.', "obs": None, "exhaustive_note": "all strings of length 1..2 over the 132-symbol alphabet, both checksum variants"},
-    "C06": {"claim": 'Model of ean/encoder.go tied by correspondence; Spec decoder from the L set (R, G and parity derived); acceptance and check digit stated for every digit string.', "obs": None, "exhaustive_note": "every (first digit, position, digit) cell for 7- and 12-digit bodies"},
-    "C07": {"claim": 'Models of code39/ and code93/ tied by correspondence (exhaustive lengths 0-2 over ASCII x 4 option mixes); Spec decoders from the Code 39 generating rule and the Code 93 width table incl. check characters and full-ASCII pair resolution.', "obs": None, "exhaustive_note": "all strings of length 0..2 over ASCII 0..127 x 4 option mixes, both symbologies"},
-    "C17": {"claim": 'Model of utils/galoisfield.go, gfpoly.go, reedsolomon.go tied by correspondence (all operand pairs of the small fields in quick, of every field in thorough; polynomial ops; shared-encoder request histories); judged against an independent shift-and-reduce field multiplication and evaluation-at-roots validity.', "obs": None, "exhaustive_note": "quick: all operand pairs of GF(16), GF(64), GF(256)/285, GF(256)/301 for Multiply/Divide/Invers, sampled rows of GF(1024), GF(4096); thorough: all pairs of every field; every check-symbol count 1..min(n-1,600) in ascending and descending request order on shared encoders"},
-    "C18": {"claim": 'Model of utils/bitlist.go over BitVec 32 words tied by correspondence (exhaustive short scripts, long random scripts across word and growth boundaries); judged against the abstract bit-sequence semantics.', "obs": None, "exhaustive_note": "every script of <= 4 (quick) / 5 (thorough) operations over an 8-operation alphabet from 7 initial lists"},
-    "C08": {"claim": "Models of codabar/ and twooffive/ tied by correspondence (exhaustive short strings); Spec decoders by run lengths from the standards' narrow/wide tables; check-digit helper against the 3-1 weighted sum.", "obs": None, "exhaustive_note": "Codabar: all strings of length <= 4 (quick) / 5 (thorough) over 20 characters + 3 noise characters; 2 of 5 and AddCheckSum: all digit strings of length <= 5 (quick) / 6 (thorough)"},
+    "C05": {"claim": "Proved in Lean for all inputs (C05_symbols, C05_roundtrip, C05_accepts_iff): the code-set chooser's output is interpreted back to the content by the ISO/IEC 15417 state machine, both checksum variants decode bit-exactly, acceptance iff 1..80 runes of the alphabet. Tied to /repo by the regenerated pattern table and constants and by correspondence (exhaustive lengths 1-2 over 132 symbols, structured transitions).", "obs": None, "exhaustive_note": "all strings of length 1..2 over the 132-symbol alphabet, both checksum variants"},
+    "C06": {"claim": 'Proved in Lean for all byte strings (C06_accept, C06_roundtrip, C06_guards): acceptance iff, completed number, 67/95 modules, guards, decode through L/G/R and parity, kind. Tied by regenerated table + correspondence covering every (first digit, position, digit) cell and malformed inputs.', "obs": None, "exhaustive_note": "every (first digit, position, digit) cell for 7- and 12-digit bodies"},
+    "C07": {"claim": 'Proved in Lean for all texts and the four option mixes (C07_code39_*, C07_code93_*): acceptance iff alphabet, reference decode returns the text, check characters (mod 43; C/K mod 47 with wrapping weights), full-ASCII pairs resolved. Tied by regenerated tables + correspondence (exhaustive lengths 0-2 over ASCII x 4 option mixes).', "obs": None, "exhaustive_note": "all strings of length 0..2 over ASCII 0..127 x 4 option mixes, both symbologies"},
+    "C17": {"claim": 'Proved in Lean for the six fields found at the NewGaloisField call sites (BV/Props/C17): primitivity certificates (O(n) bitmask walk with soundness proof) give the field laws, in-range table indices, distributivity and agreement with an independent shift-and-reduce multiplication; polynomial division law; Reed-Solomon output valid at the required roots, unique, and independent of the cache history. Tied to /repo by the call-site obligation and by correspondence (all operand pairs of the small fields in quick, of every field in thorough; shared-encoder request histories).', "obs": None, "exhaustive_note": "quick: all operand pairs of GF(16), GF(64), GF(256)/285, GF(256)/301 for Multiply/Divide/Invers, sampled rows of GF(1024), GF(4096); thorough: all pairs of every field; every check-symbol count 1..min(n-1,600) in ascending and descending request order on shared encoders"},
+    "C18": {"claim": 'Proved in Lean (BV/Props/C18): the BitList model (BitVec 32 words, growth) refines an append-only bit sequence over every operation history; both byte views equal the packed sequence. Tied to /repo by correspondence on exhaustive short scripts and long random scripts across word and growth boundaries.', "obs": None, "exhaustive_note": "every script of <= 4 (quick) / 5 (thorough) operations over an 8-operation alphabet from 7 initial lists"},
+    "C08": {"claim": 'Proved in Lean for all inputs (C08_codabar_*, C08_tof_*, C08_addCheckSum): acceptance = the anchored pattern (the ReplaceAllString idiom proved equivalent), run-length reference decoders return the text, the check digit completes the 3-1 sum to a multiple of ten. Tied by regenerated tables + correspondence (exhaustive short strings).', "obs": None, "exhaustive_note": "Codabar: all strings of length <= 4 (quick) / 5 (thorough) over 20 characters + 3 noise characters; 2 of 5 and AddCheckSum: all digit strings of length <= 5 (quick) / 6 (thorough)"},
 }
